@@ -234,9 +234,10 @@ def drv_merge(job, inputs, work):
     head = "base sections=%r keys=%r; override sections=%r keys=%r\n" % (bg, bk, og, ok)
     if rc != 0 or "AddressSanitizer" in out or "runtime error" in out:
         return True, head + out[-3000:]
-    gname = {"0": "_none_", "1": "A", "2": "B"}
-    B = [(gname[g], k, "b%d" % i) for i, (g, k) in enumerate(zip(bg, bk))]
-    O = [(gname[g], k, "o%d" % i) for i, (g, k) in enumerate(zip(og, ok))]
+    gname = {"0": "_none_", "1": "AB", "2": "A"}
+    kname = {"x": "x", "y": "xy"}
+    B = [(gname[g], kname[k], "b%d" % i) for i, (g, k) in enumerate(zip(bg, bk))]
+    O = [(gname[g], kname[k], "o%d" % i) for i, (g, k) in enumerate(zip(og, ok))]
     M = [tuple(l.split("|")[1:4]) for l in out.splitlines() if l.startswith("M|")]
     want = {}
     for g, k, v in B:
